@@ -398,7 +398,7 @@ LEAN_KEYWORDS = {"from", "to", "at", "in", "do", "end", "then", "else", "if", "l
 
 
 def lname(v):
-    v = v.replace("->", "_").replace(".", "_")
+    v = v.replace("->", "_").replace(".", "_").replace("[", "_").replace("]", "")
     if v in LEAN_KEYWORDS:
         return v + "'"
     return v
